@@ -12,6 +12,7 @@ import (
 	"path/filepath"
 	"runtime/debug"
 	"sort"
+	"strings"
 	"sync"
 	"sync/atomic"
 	"time"
@@ -274,7 +275,7 @@ func (c *Ctx) Try(f func()) (ok bool) {
 			if len(st) > 2500 {
 				st = st[:2500]
 			}
-			c.Violation("panic", fmt.Sprintf("%v\n%s", r, st), nil)
+			c.Violation("panic "+panicSite(st), fmt.Sprintf("%v\n%s", r, st), nil)
 		}
 	}()
 	f()
@@ -404,4 +405,25 @@ func RunWorker(p *Prop, tier string, seed int64, shard, nshards int, outdir stri
 	close(stop)
 	c.flush(true)
 	return 0
+}
+
+// panicSite names the innermost frame of the library under test in a stack.
+func panicSite(st string) string {
+	const pfx = "github.com/tidwall/geojson"
+	i := strings.Index(st, pfx)
+	if i < 0 {
+		return "outside-library"
+	}
+	rest := st[i+len(pfx):]
+	if j := strings.IndexByte(rest, '\n'); j >= 0 {
+		rest = rest[:j]
+	}
+	if j := strings.LastIndexByte(rest, '('); j > 0 {
+		rest = rest[:j]
+	}
+	rest = strings.TrimLeft(rest, "/.")
+	if len(rest) > 60 {
+		rest = rest[:60]
+	}
+	return rest
 }
